@@ -74,7 +74,10 @@ def run (c : ShCase) (pieces : List (List Nat)) : List CmdObs :=
 /-- **C01** for one command -/
 def specCmd (c : ShCase) (cmd : ShCmd) (o : CmdObs) : Bool :=
   let line := lineOf cmd ++ [Tty.CR]
-  if Chan.forbidden (blacklist c) line then
+  if containsSub (prompt c) (Tty.cook cmd.out) then
+    -- outside the domain: no prompt-delimited protocol can return output that contains the prompt
+    true
+  else if Chan.forbidden (blacklist c) line then
     -- rejected, and the program never ran (with whatever arguments)
     o.val == .err "illegal" && o.argv.isNone
   else
